@@ -91,6 +91,10 @@ func c14Menu(c lockCfg, thorough bool) func(w *engb.World, st *engb.LState, dept
 		{Dt: 1, Ops: []engb.LOp{{Kind: "threshold", Token: 1, Amt: amt(1)}}}, // a threshold on a token nobody holds yet
 		{Dt: 1, Absent: []int{0}, Ops: []engb.LOp{{Kind: "lock", Val: 0, Token: 0, Amt: amt(1)}}},
 		{Dt: 1, Absent: []int{0}, Evidence: []engb.EvSpec{{Val: 0, AgeBlocks: 1, AgeSecs: 1}}},
+		// several pieces of evidence in one block: an expired one must not shadow a fresh one
+		{Dt: 1, Evidence: []engb.EvSpec{{Val: 0, AgeBlocks: 5, AgeSecs: 30}, {Val: 1, AgeBlocks: 1, AgeSecs: 1}}},
+		{Dt: 1, Evidence: []engb.EvSpec{{Val: 1, AgeBlocks: 1, AgeSecs: 1}, {Val: 0, AgeBlocks: 5, AgeSecs: 30}}},
+		{Dt: 1, Evidence: []engb.EvSpec{{Val: 0, AgeBlocks: 5, AgeSecs: 30}, {Val: 0, AgeBlocks: 1, AgeSecs: 1}}},
 	}
 	if thorough {
 		base = append(base,
